@@ -202,6 +202,7 @@ def bounded_read(v):
         v.check('sized-read-bounded', n <= size)
     v.check('never-beyond-slice', n <= rem0)
     v.check('cursor-advances-by-returned', fh.pos == pos0 + n)
+    v.check('wrapper-keeps-its-file-and-never-closes-it', And(v.get(bf, 'fh') is fh, Not(fh.closed)))
     v.cover('read-returns')
 
 
@@ -392,6 +393,8 @@ def _static_harness(v):
     HTTPNotFound = v.real('falcon:HTTPNotFound')
     H416 = v.real('falcon:HTTPRangeNotSatisfiable')
     out = v.call(route, req, resp)
+    v.check('route-configuration-untouched', v.get(route, '_directory') == directory and v.get(route, '_fallback_filename') == fallback
+            and v.get(route, '_prefix') == prefix)
     if method == 'OPTIONS':
         v.check('options-answers-allow-get-without-opening-anything',
                 out.exc is None and resp.headers_set.get('Allow') == 'GET' and not opener.opened and resp.stream is None)
